@@ -33,6 +33,9 @@ MENU = [
     ("nonascii-comment", " # çé✓ c{N}\n", "line"),
     ("two-blocks-inline", " /* c{N} */ /* d{N} */ ", "block"),
     ("two-line-comments", "\n# c{N}\n# d{N}\n", "line"),
+    ("eol-comment-blank", " # c{N}\n\n", "line"),
+    ("eol-then-own-line", " # c{N}\n# d{N}\n", "line"),
+    ("eol-then-block", " # c{N}\n/* d{N} */\n", "line"),
 ]
 MENU_BY_ID = {m[0]: m for m in MENU}
 
